@@ -372,7 +372,17 @@ Record e2ecase := {
   ec_plan : ltree; ec_L : list cid; ec_R : list cid;
   ec_obs : outcome
 }.
-Definition final_errs (x : xstate) (ok : bool) : N := if x_cancelled x then 1 else 0.
+(* what ends up on the error channel besides the per-load errors: the terminal error of a failure status
+   (terminateRequest), or — when the traversal was aborted by a hard load error — that error once more
+   (ExecuteTask reports the traversal's error after advanceTraversal already reported it) *)
+Definition final_errs (x : xstate) (ok : bool) : N :=
+  if x_cancelled x then 1
+  else if ok then 0
+  else match rev (x_errs x) with
+       | EMissing _ _ :: _ => 0
+       | [] => 0
+       | _ :: _ => 1
+       end.
 Definition model_outcome (t : ltree) (L R : store) (sizes : list nat) (sched : list nat) : outcome :=
   let r := run_request proper_prefix (honest t R sizes) 0 t L [] sched in
   let o := outcome_of r in
